@@ -461,8 +461,9 @@ class VPool:
         wk.ntasks += 1
         try:
             _send(wk.wfd, msg)
-            r, _, _ = select.select([wk.rfd], [], [], WORKER_TIMEOUT_S)
-            if not r:
+            po = select.poll()  # not select(): descriptors may exceed FD_SETSIZE when many pools are alive
+            po.register(wk.rfd, select.POLLIN | select.POLLHUP | select.POLLERR)
+            if not po.poll(WORKER_TIMEOUT_S * 1000):
                 try:
                     os.kill(wk.pid, 9)
                 except OSError:
